@@ -243,4 +243,79 @@ theorem inv2_full (a : Int) (s : RandRange.St) (seen : List Int) (h : Inv2 a s s
   have hp := h.perm
   rwa [hg, List.append_nil, ho] at hp
 
+/-! ### compatible request histories: growth, or a move above everything handed out so far -/
+
+/-- Each request either keeps the minimum and does not lower the top, or starts above the previous
+    top (what monotone counters guarantee, see `Props.C10.ranges_compatible`). -/
+def CompatReqsP : Int → Int → List (Int × Int) → Prop
+  | _, _, [] => True
+  | a0, cur, (x, y) :: rest => ((x = a0 ∧ cur ≤ y) ∨ (cur + 1 ≤ x ∧ x ≤ y)) ∧ CompatReqsP x y rest
+
+theorem next_not_assertion (mk : Mk) (s : RandRange.St) : (RandRange.step mk s .next).2 ≠ .assertion := by
+  obtain ⟨⟨mn, om, cm, gen⟩, made⟩ := s
+  cases gen with
+  | cons v rest => simp [RandRange.step]
+  | nil =>
+    simp only [RandRange.step]
+    split_ifs
+    · simp
+    · cases mk made om cm <;> simp
+
+theorem uniqueDraw_compat (mk : Mk) (hmk : GoodMkP mk) (s : RandRange.St) (seen : List Int)
+    (a0 cur x y : Int) (hi : Inv1 s seen) (hmin : s.u.min = a0) (hcm : s.u.curMax = cur + 1)
+    (hreq : (x = a0 ∧ cur ≤ y) ∨ (cur + 1 ≤ x ∧ x ≤ y)) :
+    ∃ s', (uniqueDraw mk (some s) x y).1 = some s' ∧ (uniqueDraw mk (some s) x y).2 ≠ .assertion ∧
+      Inv1 s' (seen ++ values [(uniqueDraw mk (some s) x y).2]) ∧ s'.u.min = x ∧ s'.u.curMax = y + 1 := by
+  have hok : (RandRange.step mk s (.setRange x (y + 1))).2 = .ok := by
+    have h1 := hi.lt
+    have h2 := hi.le
+    simp only [RandRange.step]
+    rcases hreq with ⟨rfl, hcy⟩ | ⟨hx, hxy⟩
+    · rw [if_pos hmin.symm, if_pos (by omega)]
+    · rw [if_neg (by omega), if_pos (by omega), if_pos (by omega)]
+  have hinv := step_inv1 mk hmk s seen (.setRange x (y + 1)) hi
+  rw [values_setRange, List.append_nil] at hinv
+  have hs := setRange_ok_sets mk s x (y + 1) hok
+  have hk := next_keeps_bounds mk (RandRange.step mk s (.setRange x (y + 1))).1
+  simp only [uniqueDraw, hok, if_true]
+  exact ⟨_, rfl, next_not_assertion mk _, step_inv1 mk hmk _ seen .next hinv,
+    by rw [hk.1, hs.1], by rw [hk.2, hs.2]⟩
+
+theorem uniqueRun_compat (mk : Mk) (hmk : GoodMkP mk) (reqs : List (Int × Int)) :
+    ∀ (s : RandRange.St) (seen : List Int) (a0 cur : Int), Inv1 s seen → s.u.min = a0 →
+      s.u.curMax = cur + 1 → CompatReqsP a0 cur reqs →
+      Out.assertion ∉ (uniqueRun mk (some s) reqs).2 := by
+  induction reqs with
+  | nil => intro s seen a0 cur _ _ _ _; simp [uniqueRun]
+  | cons r reqs ih =>
+    intro s seen a0 cur hi hmin hcm hc
+    obtain ⟨x, y⟩ := r
+    simp only [CompatReqsP] at hc
+    obtain ⟨s', e1, e2, e3, e4, e5⟩ := uniqueDraw_compat mk hmk s seen a0 cur x y hi hmin hcm hc.1
+    simp only [uniqueRun, e1]
+    rw [List.mem_cons, not_or]
+    exact ⟨fun e => e2 e.symm, ih s' _ x y e3 e4 e5 hc.2⟩
+
+theorem uniqueRun_compat_first (mk : Mk) (hmk : GoodMkP mk) (a b : Int) (hab : a ≤ b)
+    (reqs : List (Int × Int)) (hc : CompatReqsP a b reqs) :
+    Out.assertion ∉ (uniqueRun mk none ((a, b) :: reqs)).2 := by
+  have hcr : ∃ s, create mk a (b + 1) = some s := by
+    unfold create
+    rw [if_pos (by omega)]
+    exact ⟨_, rfl⟩
+  obtain ⟨s, hs⟩ := hcr
+  have hi := create_inv1 mk hmk a (b + 1) s hs
+  have hb : s.u.min = a ∧ s.u.curMax = b + 1 := by
+    unfold create at hs
+    split_ifs at hs
+    simp only [Option.some.injEq] at hs
+    subst hs
+    exact ⟨rfl, rfl⟩
+  have hk := next_keeps_bounds mk s
+  simp only [uniqueRun, uniqueDraw, hs]
+  rw [List.mem_cons, not_or]
+  refine ⟨fun e => next_not_assertion mk s e.symm, ?_⟩
+  exact uniqueRun_compat mk hmk reqs _ _ a b (step_inv1 mk hmk s [] .next hi)
+    (by rw [hk.1, hb.1]) (by rw [hk.2, hb.2]) hc
+
 end SnowModel.Proofs.C10
